@@ -6,8 +6,9 @@
     against the resolved plan the generator sent (`lexPlan [] nq` must print like `plan`);
   * K-side tie of `Engine.Cte.inlinedPlan`: `Spec.run` of the statement with every reference replaced by its definition must
     equal `Spec.run` of the plan (tags `inline:agree|disagree`; a disagreement breaks K);
-  * attribution (DESIGN §3.4):
-      C28-F1  some name is defined twice in the statement AND the engine's rows are an acceptable answer of
+  * attribution (DESIGN §3.4).  C28-F1 was repaired by /repo 91e8987 (WITH names lexically scoped, one materialisation per
+    definition): `attrF1` below is what attributed it and is NO LONGER CONSULTED, so a recurrence is reported as a violation.
+      C28-F1  (fixed, inactive) some name is defined twice in the statement AND the engine's rows are an acceptable answer of
               `Engine.Cte.enginePlan today pick` (global never-restored name map + cache keyed on the name) for one of the
               candidate choices `pick`, or of the never-restored name map alone (the planner does not consult the cache everywhere);
               where the engine's rows are not mirrored exactly (or it fails): signature = some name is defined twice,
@@ -158,10 +159,9 @@ def inlinePasses (c : Case) : Bool :=
     | _ => false
   | .error _ => false
 
-def attrC28 : AttrFn := fun c o _ =>
-  match o with
-  | .ok out =>
-    let f1 : Bool := match info c with
+/-- C28-F1 (fixed by /repo 91e8987; kept for the record, not in the active set) -/
+def attrF1 (c : Case) (out : Table) : Bool :=
+    match info c with
       | .ok i => i.shadowed && ([0, 1, 2, 3].any (fun k => explains c i.nq out today (fun _ => k)) ||
           -- the planner does not always consult the cache (a reference inside a subquery expression that the optimizer rewrote): binder alone
           explains c i.nq out { scopeNeverRestored := true } (fun _ => 0) ||
@@ -169,8 +169,11 @@ def attrC28 : AttrFn := fun c o _ =>
           -- signature (a name defined twice) + neutraliser (the CTE-free, lexically resolved rendering passes)
           inlinePasses c)
       | .error _ => false
-    if f1 then some "C28-F1"
-    else if c.tags.contains "f:dup_derived_names" && renamePasses c then some "C28-F2"
+
+def attrC28 : AttrFn := fun c o _ =>
+  match o with
+  | .ok out =>
+    if c.tags.contains "f:dup_derived_names" && renamePasses c then some "C28-F2"
     else if inlineSame c out then some "C28-F3"
     else none
   | _ => none
@@ -182,13 +185,13 @@ def handler : Driver.Handler := fun cj i => do
   let kInline := inf.inlineAgrees != some false
   let v := { v with tags := v.tags ++ inf.tags, k := v.k && kInline }
   -- C28-specific strictness: the engine ANSWERS the CTE-free rendering correctly but FAILS on the WITH statement itself —
-  -- then some reference did not yield its definition's rows.  With a re-used name this is the known finding C28-F1 (a
-  -- reference bound to the other definition looks for column names that definition does not have).
+  -- then some reference did not yield its definition's rows (before /repo 91e8987: a reference bound to the other definition
+  -- of a re-used name looked for column names that definition does not have).
   match (← outcomeOfJson i) with
   | .err kind =>
     if v.oracle.isNone && !c.engineDefined && inlinePasses c then
       pure { v with oracle := some s!"engine error ({kind}) on the WITH statement although its CTE-free rendering is answered correctly",
-                    k := false, tags := v.tags ++ ["with_only_error"], attr := if inf.shadowed then some "C28-F1" else none }
+                    k := false, tags := v.tags ++ ["with_only_error"], attr := none }
     else pure v
   | _ => pure v
 
